@@ -48,6 +48,65 @@ def allowed_effect(prog, e) -> object:
     return None
 
 
+def _call_sites(prog, cl, callee):
+    """(caller FuncInfo, Call node, is_bound_method_call) for every call in the closure that names ``callee``."""
+    out = []
+    for k in cl:
+        g = prog.functions.get(k)
+        if g is None:
+            continue
+        for n in walk_local(g.node):
+            if isinstance(n, ast.Call):
+                if isinstance(n.func, ast.Name) and n.func.id == callee.name and callee.cls is None:
+                    out.append((g, n, False))
+                elif isinstance(n.func, ast.Attribute) and n.func.attr == callee.name:
+                    # x.f(...)  : bound method (self supplied by x) unless f is a module function reached through a module alias
+                    out.append((g, n, callee.cls is not None and not callee.is_static))
+    return out
+
+
+def param_effect_allowed(prog, cl, fi, pname: str, depth: int = 3):
+    """A helper writes through its parameter ``pname``.  Allowed iff at every call site in the closure the argument is a
+    fresh local of the caller, the per-packet object, or a parameter of the caller for which the same holds (bounded)."""
+    from ..astutil import root_name
+    from ..callgraph import _local_classes
+    if depth == 0:
+        return None
+    sites = _call_sites(prog, cl, fi)
+    if not sites:
+        return None
+    a = fi.node.args
+    names = [x.arg for x in a.posonlyargs + a.args]
+    for g, call, bound in sites:
+        idx = names.index(pname) if pname in names else None
+        arg = None
+        if idx is not None:
+            j = idx - 1 if bound else idx
+            if 0 <= j < len(call.args) and not any(isinstance(x, ast.Starred) for x in call.args[:j + 1]):
+                arg = call.args[j]
+        for kw in call.keywords:
+            if kw.arg == pname:
+                arg = kw.value
+        if arg is None:
+            return None
+        r = root_name(arg)
+        lc = _local_classes(prog, g)
+        c = lc.get(r) if r else None
+        if isinstance(arg, (ast.Dict, ast.List, ast.Set, ast.ListComp, ast.DictComp)) or c == "fresh":
+            continue
+        if r == "packet":
+            continue
+        if c is not None and c.startswith("alias:") and c.split(":", 1)[1] == "packet":
+            continue
+        if c == "param" and not (g.cls is not None and not g.is_static and g.params and r == g.params[0]):
+            sub = param_effect_allowed(prog, cl, g, r, depth - 1)
+            if sub is True:
+                continue
+            return sub
+        return False
+    return True
+
+
 def effect_rule(ctx: Ctx, cg: CallGraph, roots, rule: str, label: str, floor_note=""):
     prog = ctx.prog
     cl = cg.closure(roots)
@@ -60,6 +119,14 @@ def effect_rule(ctx: Ctx, cg: CallGraph, roots, rule: str, label: str, floor_not
         for e in effs:
             n_eff += 1
             a = allowed_effect(prog, e)
+            prm = e.root if e.root_class == "param" else \
+                (e.root_class.split(":", 1)[1] if e.root_class.startswith("local-alias:") else None)
+            if a is False and prm in fi.params and k not in roots and \
+                    not (fi.cls is not None and not fi.is_static and prm == fi.params[0]):
+                # context-sensitive: what do the callers in this closure pass for that parameter?
+                a2 = param_effect_allowed(prog, cl, fi, prm)
+                if a2 is True:
+                    a = True
             if a is False:
                 bad = True
                 ctx.refuted(rule, e.site,
@@ -85,8 +152,9 @@ def generator_state(ctx: Ctx):
         ctx.unknown("R11.3", f"{GEN}::CCSDSPacket", "no packet construction found")
     for c in ctor_calls:
         inside = any(any(x is c for x in ast.walk(lp)) for lp in loops)
-        ctx.decide(inside, "R11.3", f"{GEN}::{norm(c)}", "packet object is created per iteration",
-                   "the packet object is created outside the packet loop and shared between packets", where=where(fi, c))
+        ctx.decide(inside or None, "R11.3", f"{GEN}::{norm(c)}", "packet object is created per iteration",
+                   "the packet construction is not inside the packet loop (decided by the stream table R11.4: each parse must "
+                   "receive an empty packet object of its own)", where=where(fi, c))
     # parse is called with a name bound by those constructors
     for c in [n for n in walk_local(fi.node) if isinstance(n, ast.Call) and isinstance(n.func, ast.Attribute)
               and n.func.attr == "parse_ccsds_packet"]:
@@ -98,8 +166,9 @@ def generator_state(ctx: Ctx):
             ok = bool(vals) and all(v in ctor_calls for v in vals)
         elif arg in ctor_calls:
             ok = True
-        ctx.decide(ok, "R11.3", f"{GEN}::parse-argument", "the parser receives the packet object created in this iteration",
-                   "the object handed to the parser is not (only) the packet created in this iteration", where=where(fi, c))
+        ctx.decide(ok or None, "R11.3", f"{GEN}::parse-argument", "the parser receives the packet object created in this iteration",
+                   "cannot see that the object handed to the parser is the packet created in this iteration (decided by the stream "
+                   "table R11.4)", where=where(fi, c))
     # R11.6 module-level mutable objects read by the generators
     for key in (GEN, "packets.py::ccsds_generator", PARSE):
         f2 = prog.func_opt(key)
@@ -151,7 +220,7 @@ def run_stream(prog, fi, stream, opts):
         raw = packet.attrs["raw_data"]
         i = index[bytes(raw)]
         kind = stream[i]
-        packet["IDX"] = i
+        packet["IDX"] = i if len(packet) == 0 else ("stale", i, sorted(map(str, packet)))   # must arrive empty (fresh per packet)
         if kind == "unrec":
             raise Raised(ExcVal("UnrecognizedPacketTypeError", ("unrecognized",), {"partial_data": packet}))
         raw.attrs["pos"] = 8 * len(raw) + {"ok": 0, "short": -3, "long": 8}[kind]
@@ -294,6 +363,7 @@ SPEC = PropSpec(
     title="Packets are parsed independently; generators and definitions do not interfere",
     check=check,
     floors={"R11.1": 25, "R11.2": 2, "R11.3": 2, "R11.4": 8, "R11.6": 2, "R11.7": 1},
+    fallback={"R11.3": ("R11.4",)},
     explanation=("Effect analysis over the resolved call graph: every function reachable from parse_ccsds_packet "
                  "(R11.1) and from packet_generator / ccsds_generator (R11.2) is scanned for attribute stores, "
                  "item stores, deletes and mutator calls; each is classified by the root of its target (self, cls, "
